@@ -77,6 +77,7 @@ def run(tier):
         r4_path.field_held_rule(chk, 'R4.parked', prog, cfgname)
         lints.bound_before_use_rule(chk, 'C19.order', prog, cfgname, floor=5)
         lints.scratch_extent_rule(chk, 'C19.scratch', prog, cfgname, floor=40)
+        lints.outparam_on_status_rule(chk, 'C19.lent', prog, cfgname, floor=24)
         r11_kinds.run(chk, 'C19.kinds', prog, cfgname, floor=1900)
         if cfgname == 'tested':
             r9_sibling.run(chk, prog, 'R9', None, cfgname)
